@@ -506,8 +506,8 @@ def plan(tier):
     L6 = ["a", "ae", "b", "ue", "ul", "ur"]
     if tier == "quick":
         return [
-            ("patterns", "MC_Route", route_cfg(L6, ["x", "y", "xe"], ["", "s", "sr"], [True, False], 2, 1), 1, 2),
-            ("patterns3", "MC_Route", route_cfg(["a", "ae", "ur"], ["x", "xe"], ["", "s"], [True, False], 3, 1), 1, 1),
+            ("patterns", "MC_Route", route_cfg(L6, ["x", "y", "xe"], ["", "s", "sr"], [True, False], 2, 1), 1, 6),
+            ("patterns3", "MC_Route", route_cfg(["a", "ae", "ur"], ["x", "xe"], ["", "s"], [True, False], 3, 1), 1, 2),
             ("pairs", "MC_Route", route_cfg(["a", "ae", "b"], ["x", "y"], ["", "s"], [True, False], 2, 2), 1, 1),
             ("pairs3", "MC_Route", route_cfg(["a", "ae", "ur"], ["x"], [""], [True], 3, 2), 1, 1),
             ("tables", "MC_Route", route_cfg(["a", "ae", "b"], ["x"], [""], [True], 2, 3), 1, 1),
@@ -515,7 +515,7 @@ def plan(tier):
             ("parser", "Gen_Route", gen_cfg(6), 1, 2),
         ]
     return [
-        ("patterns", "MC_Route", route_cfg(L6, ["x", "y", "xe"], ["", "s", "t", "sr"], [True, False], 3, 1), 1, 4),
+        ("patterns", "MC_Route", route_cfg(L6, ["x", "y", "xe"], ["", "s", "t", "sr"], [True, False], 3, 1), 1, 6),
         ("pairs", "MC_Route", route_cfg(["a", "ae", "b", "ue", "ur"], ["x", "y", "xe"], ["", "s", "t"], [True, False], 2, 2), 1, 2),
         ("pairs3", "MC_Route", route_cfg(["a", "ae", "b", "ur"], ["x", "y"], [""], [True], 3, 2), 1, 2),
         ("tables", "MC_Route", route_cfg(["a", "ae", "b"], ["x"], [""], [True], 2, 4), 1, 2),
